@@ -279,8 +279,20 @@ func (maps *trackedMaps) processUnfiltered(ctx context.Context, ef *Filter, filt
 						fkind := f.Kind()
 						switch {
 						case fkind == reflect.Struct:
+							var copied bool
+							if !f.CanAddr() {
+								// a struct held by value in a slice of interfaces
+								// isn't settable: filter a settable copy of it and
+								// store the value (not its address) back.
+								s := reflect.New(f.Type()).Elem()
+								s.Set(f)
+								f, copied = s, true
+							}
 							if err := ef.filterField(ctx, f, filterOverrides, newMaps, opt...); err != nil {
 								return fmt.Errorf("%s: unable to filter slice of structs: %w", op, err)
+							}
+							if copied {
+								field.Index(i).Set(f)
 							}
 						case fkind == reflect.Map:
 							newMaps.trackMap(&tMap{
